@@ -251,6 +251,52 @@ fn lost_item_then_reload(thorough: bool) -> (u64, Vec<Value>) {
     (n.load(Ordering::Relaxed), bad.into_inner().unwrap())
 }
 
+/// A live replica reloads while one stored item is unreadable (damaged in place, or a junk pack is listed): the
+/// reload may fail. The damage then goes away (the file synchroniser finishes) and the replica REFRESHES: it must
+/// show what a fresh open of the intact storage shows - a failed reload must not leave it half cleared.
+fn failed_reload_then_refresh(store: &RawStore, hist: &str) -> (u64, Option<Value>) {
+    let mut n = 0u64;
+    let want = fresh_view(store, "C10 open(intact)");
+    let mut cases: Vec<(String, String, Option<Vec<u8>>, Vec<u8>)> = vec![]; // (what, key, original, damaged)
+    for (k, b) in store.iter() {
+        cases.push((format!("{} truncated to half", k), k.clone(), Some(b.clone()), b[..b.len() / 2].to_vec()));
+    }
+    let junk = b"[{\"a\":1},{\"b\":".to_vec();
+    cases.push(("a junk pack under a well-formed name".into(), format!("{}.pack", "0".repeat(64)), None, junk.clone()));
+    cases.push(("a junk block under a well-formed name".into(), format!("1-{}.delta", "0".repeat(64)), None, b"{".to_vec()));
+    for (what, key, original, damaged) in cases {
+        for second in ["refresh", "reload"] {
+            let Ok((mut m, st)) = fresh_on(store, "C10 live replica (all loaded)") else { return (n, None) };
+            st.put_raw(&key, damaged.clone());
+            n += 1;
+            set_trace("C10 reload while an item is unreadable");
+            let r1 = crate::guard::call("reload", || m.reload().map_err(|e| e.to_string()));
+            if let Err(p) = &r1 {
+                return (n, Some(json!({"error": "reload panicked", "panic": p, "damage": what, "input": {"history_of_store": hist}})));
+            }
+            match &original {
+                Some(b) => st.put_raw(&key, b.clone()),
+                None => st.remove_raw(&key),
+            }
+            let r2 = if second == "refresh" {
+                crate::guard::call("refresh", || m.refresh().map_err(|e| e.to_string()))
+            } else {
+                crate::guard::call("reload", || m.reload().map_err(|e| e.to_string()))
+            };
+            match r2 {
+                Err(p) => return (n, Some(json!({"error": format!("{} after the failed reload panicked", second), "panic": p, "damage": what, "input": {"history_of_store": hist}}))),
+                Ok(Err(_)) => continue,
+                Ok(Ok(())) => {}
+            }
+            let v = view(&m);
+            if v != want {
+                return (n, Some(json!({"error": format!("after a reload that met an unreadable item, {} on the intact storage does not give the state of a fresh open", second), "first_reload": format!("{:?}", r1), "damage": what, "differs": diff_keys(&v, &want), "view": v, "expected": want, "input": {"history_of_store": hist}})));
+            }
+        }
+    }
+    (n, None)
+}
+
 fn live_damage_rest(n: u64) -> (u64, Option<Value>) {
     (n, None)
 }
@@ -582,6 +628,16 @@ pub fn run(thorough: bool) {
             bad.lock().unwrap().push(("meld-from-a-damaged-source".to_string(), d));
         }
     }
+    let fr: Vec<(u64, Option<Value>)> = stores.par_iter().map(|(hist, store)| failed_reload_then_refresh(store, hist)).collect();
+    let mut fr_n = 0;
+    for (n, v) in fr {
+        fr_n += n;
+        if let Some(d) = v {
+            bad.lock().unwrap().push(("failed-reload-then-refresh".to_string(), d));
+        }
+    }
+    evals.fetch_add(fr_n, Ordering::Relaxed);
+    outcomes.lock().unwrap().insert("failed-reload-then-refresh:fresh-open-state-or-error".into(), fr_n);
     let (lost_n, lost_bad) = lost_item_then_reload(thorough);
     evals.fetch_add(lost_n, Ordering::Relaxed);
     outcomes.lock().unwrap().insert("lost-item-then-reload:fresh-open-state-and-durable-commits".into(), lost_n);
@@ -602,7 +658,7 @@ pub fn run(thorough: bool) {
     rep.set("stores", json!(per_store));
     rep.push_sample(json!({"store_from_history": stores.last().map(|s| s.0.clone()), "damage": "every single-bit flip and every truncation of every item, every subset of items deleted, junk menu injected"}));
     rep.set("exhaustive", json!(true));
-    rep.set("rule", json!("for each chosen storage (taken from explored two-replica histories with branches, merges and resolutions): EVERY single-bit flip of EVERY item, truncation of every item to EVERY shorter length, deletion of EVERY subset of items, and a junk menu (arbitrary names, well-formed names with non-matching bytes, valid items under other valid-looking names, correctly named files with malformed contents, empty and non-UTF8 files, an index beyond u32). Each damaged storage is opened with Melda::new, and (every 8th flip / 16th truncation / every injection) presented to a live replica's refresh; accepted outcomes: an error, or a state equal to a fresh open of the intact, causally complete subset (independent raw-byte reference); a panic is a violation. Also: in every state of a small exploration, every item of an unstaged replica is removed from its storage and the replica reloaded: it must show what a fresh open shows, and every document then submitted and committed must reopen to the committer's state. Also: a live source replica with one item damaged in place (every item x 6 damage variants) is melded into an empty replica and into one holding every other item, then refreshed: same accepted outcomes. distinct_nontrivial = distinct (damage kind, route, outcome) classes"));
+    rep.set("rule", json!("for each chosen storage (taken from explored two-replica histories with branches, merges and resolutions): EVERY single-bit flip of EVERY item, truncation of every item to EVERY shorter length, deletion of EVERY subset of items, and a junk menu (arbitrary names, well-formed names with non-matching bytes, valid items under other valid-looking names, correctly named files with malformed contents, empty and non-UTF8 files, an index beyond u32). Each damaged storage is opened with Melda::new, and (every 8th flip / 16th truncation / every injection) presented to a live replica's refresh; accepted outcomes: an error, or a state equal to a fresh open of the intact, causally complete subset (independent raw-byte reference); a panic is a violation. Also: a live replica reloads while an item is unreadable (every item truncated in place, junk items listed), the damage is undone, and it refreshes / reloads again: the state of a fresh open of the intact storage. Also: in every state of a small exploration, every item of an unstaged replica is removed from its storage and the replica reloaded: it must show what a fresh open shows, and every document then submitted and committed must reopen to the committer's state. Also: a live source replica with one item damaged in place (every item x 6 damage variants) is melded into an empty replica and into one holding every other item, then refreshed: same accepted outcomes. distinct_nontrivial = distinct (damage kind, route, outcome) classes"));
     rep.assume("damage applied to items a live replica has already loaded is not presented through refresh (the statement speaks of opening or refreshing after damage)");
     rep.finish();
 }
